@@ -49,6 +49,100 @@ fn gen_act(rng: &mut Prng, id: &str) -> Value {
     Value::Object(a)
 }
 
+/// A history over the rules of the case (pool indices; ids are pairwise distinct in the pool): most rules are
+/// inserted, then removals of every kind (single, batch, change-set incl. updates = remove + re-insert), cache
+/// warm-ups and re-insertions.  Every id is live at most once (a second insert of a live id is not generated).
+///   OP = {"op":"insert","r":i} | {"op":"remove","id":s} | {"op":"batch","ids":[s…]}
+///      | {"op":"change","a":[i…],"u":[i…],"d":[s…]} | {"op":"cache","n":k|null}
+fn gen_history(rng: &mut Prng, rules: &[Value]) -> Vec<Value> {
+    let n = rules.len();
+    let id = |i: usize| rules[i]["id"].as_str().unwrap().to_string();
+    let mut live: Vec<bool> = vec![false; n];
+    let mut ops = Vec::new();
+    let mut order: Vec<usize> = (0..n).collect();
+    for i in (1..n).rev() {
+        order.swap(i, rng.below(i + 1));
+    }
+    for &i in &order {
+        if rng.chance(5, 6) {
+            ops.push(json!({"op": "insert", "r": i}));
+            live[i] = true;
+        }
+    }
+    let pick_ids = |rng: &mut Prng, live: &[bool], k: usize| -> Vec<usize> {
+        let mut out: Vec<usize> = Vec::new();
+        for _ in 0..k {
+            let i = rng.below(n);
+            // mostly live ids
+            if (live[i] || rng.chance(1, 4)) && !out.contains(&i) {
+                out.push(i);
+            }
+        }
+        out
+    };
+    let steps = rng.range(1, 7);
+    for _ in 0..steps {
+        match rng.below(9) {
+            0 | 1 => {
+                let i = rng.below(n);
+                if rng.chance(1, 10) {
+                    ops.push(json!({"op": "remove", "id": "nope"}));
+                } else {
+                    ops.push(json!({"op": "remove", "id": id(i)}));
+                    live[i] = false;
+                }
+            }
+            2 | 3 => {
+                let k = rng.range(1, 3);
+                let is = pick_ids(rng, &live, k);
+                for &i in &is {
+                    live[i] = false;
+                }
+                ops.push(json!({"op": "batch", "ids": is.iter().map(|&i| id(i)).collect::<Vec<String>>()}));
+            }
+            4 | 5 => {
+                let kd = rng.below(3);
+                let d = pick_ids(rng, &live, kd);
+                for &i in &d {
+                    live[i] = false;
+                }
+                let mut u: Vec<usize> = Vec::new();
+                let mut a: Vec<usize> = Vec::new();
+                for i in 0..n {
+                    if d.contains(&i) {
+                        continue;
+                    }
+                    if live[i] && rng.chance(1, 4) {
+                        u.push(i);
+                    } else if !live[i] && rng.chance(1, 3) {
+                        a.push(i);
+                        live[i] = true;
+                    }
+                }
+                ops.push(json!({"op": "change", "a": a, "u": u, "d": d.iter().map(|&i| id(i)).collect::<Vec<String>>()}));
+            }
+            6 | 7 => {
+                let n: Value = match rng.below(4) {
+                    0 => Value::Null,
+                    1 => json!(rng.below(4)),
+                    2 => json!(rng.range(4, 40)),
+                    _ => json!(1000),
+                };
+                ops.push(json!({"op": "cache", "n": n}));
+            }
+            _ => {
+                let dead: Vec<usize> = (0..n).filter(|&i| !live[i]).collect();
+                if !dead.is_empty() {
+                    let i = *rng.pick(&dead);
+                    ops.push(json!({"op": "insert", "r": i}));
+                    live[i] = true;
+                }
+            }
+        }
+    }
+    ops
+}
+
 fn gen(args: &Args, emit: &mut dyn FnMut(Value)) {
     let mut rng = Prng::new(args.seed);
     // diff-directed block (only when the library differs from the baseline; see router_gen::hint_block)
@@ -71,10 +165,111 @@ fn gen(args: &Args, emit: &mut dyn FnMut(Value)) {
                 r["rank"] = json!(k * 2 + rng.below(2));
             }
         }
+        // a third of the cases: the router is not built from scratch but is what a history leaves behind
+        let ops = if i % 3 == 1 { Some(gen_history(&mut rng, &rules)) } else { None };
         let nq = rng.range(2, 5);
-        let reqs: Vec<Value> = (0..nq).map(|_| gen_request(&mut rng, &rules)).collect();
-        emit(json!({"cfg": cfg, "rules": rules, "reqs": reqs}));
+        let mut reqs: Vec<Value> = (0..nq).map(|_| gen_request(&mut rng, &rules)).collect();
+        // bias towards cases in which something is listed: redraw the first request (a few times) until one of
+        // the requests is answered by the router of the case
+        if let Some(router) = router_of(&cfg, &rules, ops.as_deref()) {
+            let answered = |qd: &Value| raw_request(qd).map(|q| !router.match_request(&router.rebuild_request(&q)).is_empty()).unwrap_or(false);
+            if !reqs.iter().any(|q| answered(q)) {
+                for _ in 0..20 {
+                    let q = gen_request(&mut rng, &rules);
+                    if answered(&q) {
+                        reqs[0] = q;
+                        break;
+                    }
+                }
+            }
+        }
+        let mut case = json!({"cfg": cfg, "rules": rules, "reqs": reqs});
+        if let Some(ops) = ops {
+            case["ops"] = Value::Array(ops);
+        }
+        emit(case);
     }
+}
+
+/// The router of a case: all rules inserted in order, or (with "ops") the empty router after the history.
+/// `None`: the case is not well-formed (bad rule, duplicate id, insert of a live id, bad index).
+fn router_of(cfg: &Value, rules_d: &[Value], ops: Option<&[Value]>) -> Option<Router<Rule>> {
+    let config = config_of(cfg)?;
+    let mut ids = std::collections::HashSet::new();
+    let mut rules: Vec<Rule> = Vec::new();
+    for d in rules_d {
+        let rule = rule_of(d, d.get("act"))?;
+        if !ids.insert(rule.id.clone()) {
+            return None;
+        }
+        rules.push(rule);
+    }
+    let mut router = Router::<Rule>::from_config(config);
+    let ops = match ops {
+        None => {
+            for r in rules {
+                router.insert(r);
+            }
+            return Some(router);
+        }
+        Some(ops) => ops,
+    };
+    if ops.len() > 400 {
+        return None;
+    }
+    let mut live: std::collections::HashSet<String> = std::collections::HashSet::new();
+    let idx = |v: Option<&Value>| -> Option<Vec<usize>> {
+        v?.as_array()?.iter().map(|x| x.as_u64().map(|x| x as usize).filter(|&x| x < rules.len())).collect()
+    };
+    let strs = |v: Option<&Value>| -> Option<Vec<String>> { v?.as_array()?.iter().map(|x| x.as_str().map(|x| x.to_string())).collect() };
+    for op in ops {
+        match op.get("op")?.as_str()? {
+            "insert" => {
+                let i = op.get("r")?.as_u64()? as usize;
+                let r = rules.get(i)?.clone();
+                if !live.insert(r.id.clone()) {
+                    return None;
+                }
+                router.insert(r);
+            }
+            "remove" => {
+                let id = op.get("id")?.as_str()?;
+                live.remove(id);
+                router.remove(id);
+            }
+            "batch" => {
+                let ids = strs(op.get("ids"))?;
+                for id in &ids {
+                    live.remove(id);
+                }
+                router.batch_remove(&ids.into_iter().collect());
+            }
+            "change" => {
+                let (a, u, d) = (idx(op.get("a"))?, idx(op.get("u"))?, strs(op.get("d"))?);
+                for id in &d {
+                    live.remove(id);
+                }
+                for &i in &u {
+                    live.remove(&rules[i].id);
+                }
+                for &i in u.iter().chain(a.iter()) {
+                    if !live.insert(rules[i].id.clone()) {
+                        return None;
+                    }
+                }
+                router.apply_change_set(a.iter().map(|&i| rules[i].clone()).collect(), u.iter().map(|&i| rules[i].clone()).collect(), d.into_iter().collect());
+            }
+            "cache" => {
+                let n = match op.get("n") {
+                    None | Some(Value::Null) => None,
+                    Some(v) => Some(v.as_u64()?),
+                };
+                router.cache(n);
+            }
+            _ => return None,
+        }
+    }
+    Some(router)
 }
 
 /// The request as a proxy would hand it over before normalisation: no lower-casing anywhere.
@@ -113,6 +308,38 @@ fn stored_ids(v: &Value, out: &mut Vec<String>) {
     }
 }
 
+/// The trace forest in a canonical text: `type(matched executed count){children}` with the children sorted
+/// (several matchers keep their buckets in hash maps: the order of siblings is not part of the comparison),
+/// `storage[sorted ids]` for storage nodes.  The payload of the other nodes (request / against texts,
+/// per-condition results) is not modelled.  With `counts == false` the `count` fields are left out.
+fn canon(v: &Value, counts: bool) -> String {
+    let o = match v.as_object() {
+        Some(o) => o,
+        None => return "?".into(),
+    };
+    let ty = o.get("type").and_then(|t| t.as_str()).unwrap_or("?");
+    let kind = if ty == "storage" {
+        let mut ids: Vec<String> = o
+            .get("routes")
+            .and_then(|r| r.as_array())
+            .map(|rs| rs.iter().filter_map(|r| r.get("id").and_then(|i| i.as_str()).map(|i| i.to_string())).collect())
+            .unwrap_or_default();
+        ids.sort();
+        format!("storage[{}]", ids.join(","))
+    } else {
+        ty.to_string()
+    };
+    let flag = |k: &str| if o.get(k).and_then(|b| b.as_bool()).unwrap_or(false) { 1 } else { 0 };
+    let count = if counts { format!(" {}", o.get("count").and_then(|c| c.as_u64()).unwrap_or(0)) } else { String::new() };
+    format!("{}({}{}{}){{{}}}", kind, flag("matched"), flag("executed"), count, canon_list(o.get("children").unwrap_or(&Value::Null), counts))
+}
+
+fn canon_list(v: &Value, counts: bool) -> String {
+    let mut cs: Vec<String> = v.as_array().map(|a| a.iter().map(|c| canon(c, counts)).collect()).unwrap_or_default();
+    cs.sort();
+    cs.join(",")
+}
+
 fn strip_volatile(v: &mut Value) {
     // rule_traces / rule_ids of an action list every merged rule in merge order; they are part of the comparison.
     let _ = v;
@@ -131,18 +358,16 @@ fn run(case: &Value) -> Obs {
         Some(r) => r,
         None => return Obs::invalid("reqs"),
     };
-    let mut ids = std::collections::HashSet::new();
-    let mut router = Router::<Rule>::from_config(config.clone());
-    for d in rules_d {
-        let rule = match rule_of(d, d.get("act")) {
-            Some(r) => r,
-            None => return Obs::invalid("rule"),
-        };
-        if !ids.insert(rule.id.clone()) {
-            return Obs::invalid("duplicate rule id");
-        }
-        router.insert(rule);
-    }
+    let _ = &config;
+    let ops_d = match case.get("ops") {
+        None | Some(Value::Null) => None,
+        Some(Value::Array(a)) => Some(a.as_slice()),
+        _ => return Obs::invalid("ops"),
+    };
+    let router = match router_of(case.get("cfg").unwrap(), rules_d, ops_d) {
+        Some(r) => r,
+        None => return Obs::invalid("rule or history"),
+    };
     let mut obs = Vec::new();
     let mut fail: Option<(String, &'static str)> = None;
     let mut any_match = false;
@@ -160,8 +385,10 @@ fn run(case: &Value) -> Obs {
         let t = sorted_ids(&trace_routes);
         let t_with_dups = t.clone();
         let mut ts = Vec::new();
-        stored_ids(&serde_json::to_value(&traces).unwrap_or(Value::Null), &mut ts);
+        let traces_json = serde_json::to_value(&traces).unwrap_or(Value::Null);
+        stored_ids(&traces_json, &mut ts);
         ts.sort();
+        let tr = canon_list(&traces_json, true);
         if t != m && fail.is_none() {
             let mut tset = t.clone();
             tset.dedup();
@@ -199,11 +426,21 @@ fn run(case: &Value) -> Obs {
                 ));
             }
         }
-        any_match |= !m.is_empty();
-        obs.push(json!({"t": t, "ts": ts, "m": m, "fp": fp, "gp": gp}));
+        any_match |= !t.is_empty();
+        obs.push(json!({"t": t, "ts": ts, "m": m, "fp": fp, "gp": gp, "tr": tr}));
     }
-    let mut o = Obs::new(Value::Array(obs)).trivial(rules_d.is_empty() || reqs_d.is_empty());
+    // non-trivial = the trace of at least one request lists a route (cases in which nothing is listed are still
+    // compared, but they only repeat the emptiness check)
+    let mut o = Obs::new(Value::Array(obs)).trivial(!any_match);
     o.tags.extend(rule_tags(rules_d));
+    if let Some(ops) = ops_d {
+        o.tags.push("history".into());
+        for k in ["remove", "batch", "change", "cache"] {
+            if ops.iter().any(|op| op.get("op").and_then(|x| x.as_str()) == Some(k)) {
+                o.tags.push(format!("history:{k}"));
+            }
+        }
+    }
     if any_match {
         o.tags.push("some-match".into());
     }
